@@ -118,8 +118,9 @@ def run(prop, tier, seed, replay=None):
         open(sp, "w").close()
         sruns = ([dict(V=2, EMIN=2, EMAX=3, WSET={2, 4, 6}, WD=4, DSET={1, 3}, EXTV=2, STRIDE=17, OFFSET=rnd.randrange(17)),
                   dict(V=3, EMIN=3, EMAX=3, WSET={4}, WD=4, DSET={2}, EXTV=2, STRIDE=11, OFFSET=rnd.randrange(11))] if tier == "quick" else
-                 [dict(V=3, EMIN=2, EMAX=3, WSET={2, 3, 4, 6}, WD=4, DSET={1, 2, 3, 4}, EXTV=3, STRIDE=53, OFFSET=rnd.randrange(53)),
-                  dict(V=3, EMIN=4, EMAX=4, WSET={4, 6}, WD=4, DSET={1, 3}, EXTV=2, STRIDE=997, OFFSET=rnd.randrange(997))])
+                 [dict(V=2, EMIN=2, EMAX=3, WSET={2, 3, 4, 6}, WD=4, DSET={1, 2, 3, 4}, EXTV=3, STRIDE=7, OFFSET=rnd.randrange(7)),
+                  dict(V=3, EMIN=3, EMAX=3, WSET={4, 6}, WD=4, DSET={1, 3}, EXTV=2, STRIDE=11, OFFSET=rnd.randrange(11)),
+                  dict(V=2, EMIN=4, EMAX=4, WSET={4, 6}, WD=4, DSET={1, 3}, EXTV=2, STRIDE=53, OFFSET=rnd.randrange(53))])
         sst = 0
         for i, c_ in enumerate(sruns):
             gr = core.tlc("Gen_Sector", core.cfg_text(spec="MCSpec", constants=c_, invariants=["EmitSector"]), "gen_sector_%d" % i, wd,
